@@ -16,6 +16,7 @@ THEOREMS = [
     "C06_stop_rule",
     "C06_counts_partition",
     "C06_sums_partition",
+    "C06_zero_row_blocks_irrelevant",
 ]
 CORR_OPS = ["kmeans_iter:e_step", "kmeans_iter:fit1_numpy", "kmeans_iter:fit1_dask", "kmeans_iter:from_initialize", "em_stop:kmeans_numpy", "em_stop:kmeans_dask", "em_stop:kmeans_refit"]
 RULE = ("data x initial centroids (explicit arrays, or what the real initialize produced for seeded 'random' / 'k-means||') x row "
@@ -52,7 +53,7 @@ def scenario(ctx, i):
         N = len(x)
         K = min(int(r.integers(2, 4)), N - 1)
         cent = x[r.choice(N, K, replace=False)].copy()
-    return dict(K=K, D=D, x=x, cent=cent, sizes=gen.random_composition(r, N), late=[None, None, "set_params", "setattr"][int(r.integers(0, 4))])
+    return dict(K=K, D=D, x=x, cent=cent, sizes=gen.with_empty_blocks(r, gen.random_composition(r, N)), late=[None, None, "set_params", "setattr"][int(r.integers(0, 4))])
 
 
 def margin_ok(x, cent):
